@@ -515,3 +515,87 @@ Example C18_source_example_date_bin_str :
   call_function call_ref prim_env env_date_bin_str [pstr (s2z "1 day"); PV (VDate 738945); PV (VDate 738886)] =
     Ok (PV (VDate 738945)).
 Proof. vm_compute. repeat split; reflexivity. Qed.
+
+(* ================================================================================================================
+   Tie by translation of date_bin(relativedelta, date, date) - the overload with the two `while True` loops (bld-env2).
+   Gen/SrcEnv2.v holds the PyMini term of the WHOLE function, regenerated on every run (harness/vf/src_env2.py);
+   `while True: B` is the fuelled `for $while in $fuel: B` over an extra last parameter, followed by a marker primitive
+   without semantics (running out of fuel is Stuck, never a value).  Primitives (dateutil's date + relativedelta with the
+   day clipped to the month, timedelta arithmetic): Model/PrimsEnvDateBin.v.  Proofs: Proofs/SrcEnvDateBin.v.
+   [run_date_bin call_ref fuel r source origin] = the interpreter on the term with arguments (p_rdelta r, source, origin, fuel).
+   ================================================================================================================ *)
+From Verif Require Import Model.PrimsEnvDateBin Gen.SrcEnv2 Proofs.DatesChecks Proofs.SrcEnvDateBin.
+
+(* for EVERY amount of fuel: the term = the model's loops run with that much fuel (VErr 9 "out of fuel" <-> Stuck) *)
+Theorem C18_source_date_bin_fuel : forall call_ref fuel r source origin, day_in_range r source origin ->
+  run_date_bin call_ref fuel r source origin = lift (date_bin_fuel (List.length fuel) r source origin).
+Proof. exact date_bin_src_fuel. Qed.
+Print Assumptions C18_source_date_bin_fuel.
+
+(* the fuelled model with the model's own fuel IS Dates.date_bin_rd, the function C18_date_bin_* are stated over *)
+Theorem C18_source_date_bin_fuel_model : forall r source origin,
+  date_bin_fuel (model_fuel source origin) r source origin = date_bin_rd r source origin.
+Proof. exact date_bin_fuel_model. Qed.
+Print Assumptions C18_source_date_bin_fuel_model.
+
+(* more fuel than the model's bound changes nothing unless the model itself ran out *)
+Theorem C18_source_date_bin_fuel_enough : forall r source origin n,
+  date_bin_rd r source origin <> VErr 9 -> (model_fuel source origin <= n)%nat ->
+  date_bin_fuel n r source origin = date_bin_rd r source origin.
+Proof. exact date_bin_fuel_enough. Qed.
+Print Assumptions C18_source_date_bin_fuel_enough.
+
+Theorem C18_source_date_bin : forall call_ref fuel r source origin, day_in_range r source origin ->
+  date_bin_rd r source origin <> VErr 9 -> (model_fuel source origin <= List.length fuel)%nat ->
+  run_date_bin call_ref fuel r source origin = lift (date_bin_rd r source origin).
+Proof. exact date_bin_src. Qed.
+Print Assumptions C18_source_date_bin.
+
+(* the bound |source - origin| + 1 is sufficient whenever every addition of the stride moves the date forward *)
+Theorem C18_source_date_bin_progress_fwd : forall call_ref fuel r source origin,
+  (rd_months r <> 0 \/ rd_years r <> 0) ->
+  (forall n, origin <= n <= source -> exists n', rd_add n r = VDate n' /\ n < n') ->
+  origin <= source -> (Z.to_nat (source - origin + 1) <= List.length fuel)%nat ->
+  run_date_bin call_ref fuel r source origin = lift (date_bin_rd r source origin).
+Proof. exact date_bin_src_progress_fwd. Qed.
+Print Assumptions C18_source_date_bin_progress_fwd.
+
+Theorem C18_source_date_bin_progress_bwd : forall call_ref fuel r source origin,
+  (rd_months r <> 0 \/ rd_years r <> 0) ->
+  (exists o1, rd_add origin r = VDate o1 /\ origin < o1) ->
+  (forall x, source < x <= origin -> exists x', rd_add x (rd_neg r) = VDate x' /\ x' < x) ->
+  source < origin -> (Z.to_nat (origin - source + 1) <= List.length fuel)%nat ->
+  run_date_bin call_ref fuel r source origin = lift (date_bin_rd r source origin).
+Proof. exact date_bin_src_progress_bwd. Qed.
+Print Assumptions C18_source_date_bin_progress_bwd.
+
+(* strides in days: no loop is entered, any fuel *)
+Theorem C18_source_date_bin_days : forall call_ref fuel k source origin,
+  (0 < k -> valid_ord (origin + (source - origin) / k * k) = true) ->
+  run_date_bin call_ref fuel (mkrd 0 0 k) source origin = lift (date_bin_rd (mkrd 0 0 k) source origin).
+Proof. exact date_bin_src_days. Qed.
+Print Assumptions C18_source_date_bin_days.
+
+(* month / year strides 1, 2, 3, 6 months, 1, 5 years on 1900-01-01 .. 2100-12-31 (progress checked for every date) *)
+Theorem C18_source_date_bin_range : forall call_ref fuel r source origin,
+  In r bin_strides -> in_range origin -> in_range source ->
+  (Z.to_nat (Z.abs (source - origin) + 1) <= List.length fuel)%nat ->
+  run_date_bin call_ref fuel r source origin = lift (date_bin_rd r source origin).
+Proof. exact date_bin_src_range. Qed.
+Print Assumptions C18_source_date_bin_range.
+
+(* the encoding of the stride is the one C18_source_date_bin_str hands to the opaque callable date_bin *)
+Theorem C18_source_date_bin_encoding : forall r, p_rdelta r = p_rd r.
+Proof. reflexivity. Qed.
+Print Assumptions C18_source_date_bin_encoding.
+
+(* Non-vacuity (each line replayed on the live function): date_bin('1 month', 2024-02-29, origin 2024-01-31) with 31 passes
+   of fuel is 2024-02-29 (738945: the clipped 2024-01-31 + 1 month is not > source, the next step is); with one pass it is
+   out of fuel = Stuck; a zero stride in days raises ZeroDivisionError; 7 days; a source before the origin (backward loop). *)
+Example C18_source_example_date_bin :
+  run_date_bin (fun _ _ => PNone) (repeat PNone 31) (rd_make 0 1 0) 738945 738916 = Ok (PV (VDate 738945)) /\
+  run_date_bin (fun _ _ => PNone) (repeat PNone 1) (rd_make 0 1 0) 738945 738916 = Stuck /\
+  run_date_bin (fun _ _ => PNone) [] (rd_make 0 0 0) 738945 738916 = Exc ZeroDivisionError /\
+  run_date_bin (fun _ _ => PNone) [] (rd_make 0 0 7) 738945 738916 = Ok (PV (VDate 738944)) /\
+  run_date_bin (fun _ _ => PNone) (repeat PNone 31) (rd_make 0 1 0) 738916 738945 = Ok (PV (VDate 738914)).
+Proof. vm_compute. repeat split; reflexivity. Qed.
